@@ -116,8 +116,21 @@ def run_case(case, rng):
         elif gamma < 1:
             Bs = np.full(nS, eps / (1 - gamma) + 1e-9 * sol_.scale)
         else:
-            steps, _, _ = Rf.expected_steps(arr_, _norm_rows(PI, arr_.avail), pinned_, return_parts=True)
-            Bs = eps * (1.0 + steps) + 1e-9 * sol_.scale
+            # gamma = 1.  V_k = V^pi + (I - P_pi)^-1 d_k with pi STRICTLY greedy for V_k and 0 <= d_k <= eps,
+            # so 0 <= V_k - V* <= eps * E[steps of pi].  pi is read off msdm's own action values (first
+            # maximiser); a closed class of pi with zero reward is worth 0 and acts as a terminal; if pi
+            # can reach a closed class paying negative reward the identity gives no bound (B = inf).
+            Qa = np.where(arr_.avail, Q, -np.inf)
+            pg = np.zeros_like(PI)
+            pg[np.arange(nS), np.argmax(Qa, axis=1)] = 1.0
+            steps, reach_rec, recurrent = Rf.expected_steps(arr_, pg, pinned_, return_parts=True)
+            T_, ER_ = Rf._masked(arr_, pinned_)
+            r_pi = np.einsum("sa,sa->s", ER_, pg)
+            P_pi = np.einsum("san,sa->sn", T_, pg)
+            negrec = recurrent & (r_pi < 0)
+            reach = Rf.reachability(P_pi > 0)
+            bad = reach[:, negrec].any(axis=1) if negrec.any() else np.zeros(nS, dtype=bool)
+            Bs = np.where(bad, np.inf, eps * (1.0 + steps) + 1e-9 * sol_.scale)
         # (b) absorbing -> 0, cannot reach -> placeholder exactly
         for i in range(nS):
             if arr_.absorbing[i]:
@@ -144,6 +157,9 @@ def run_case(case, rng):
                                diff=float(dq), below_opt=bool(dq < 0), **facts)
         # (c) policy rows
         Bmax = float(Bs[live].max()) if live.any() else 0.0
+        if not np.isfinite(Bmax):
+            case.count("bound_unavailable")
+            return dict(V=V, Q=Q, PI=PI, conv=True, B=Bs)
         for i in np.nonzero(live)[0]:
             case.count("policy_rows_checked")
             row = PI[i]
